@@ -46,6 +46,7 @@ def verus(name, props, clause, fn, tier="quick"):
 
 
 ROOT = "verif_root::"
+EN = "energy::verif_energy::n::"
 
 OBLIGATIONS = [
     # ---- C11 classifiers (complete proofs over the full float domain) --------------------------------
@@ -55,11 +56,52 @@ OBLIGATIONS = [
     kani("c11_tilt_parser_model", ["C11"], "C11.tilt.parser_model", "hulc::bdl::Wall::position / bemodel::Tilt::from(f32)"),
     kani("c11_orient_sectors", ["C11", "C10"], "C11.orient.sectors", "bemodel::Orientation::from(f32)"),
     kani("c11_normalize_range", ["C11"], "C11.normalize", "bemodel::utils::normalize"),
+    # ---- C06 leaves -----------------------------------------------------------------------------------
+    kani("c06_fround2_contract", ["C06", "C07", "C08"], "C06.fround2", "bemodel::utils::fround2 (kani::requires/ensures, proof_for_contract)"),
+    kani("c06_fround3_contract", ["C06"], "C06.fround3", "bemodel::utils::fround3 (kani::requires/ensures, proof_for_contract)"),
+    kani("c06_fround2_monotone", ["C06"], "C06.fround2.monotone", "bemodel::utils::fround2"),
+    kani("c06_uext_value", ["C06"], "C06.uext.value", "Wall::u_value_exterior (fround2 replaced by its verified contract)", timeout=400),
+    kani("c06_uext_none", ["C06"], "C06.uext.none", "Wall::u_value_exterior"),
+    kani("c06_uint_value", ["C06"], "C06.uint.value", "Wall::u_value_interior_cond_uncond (fround2 replaced by its verified contract)", timeout=400),
+    kani("c06_gnd_notburied", ["C06"], "C06.gnd.notburied", "Wall::u_value_gnd_wall / u_value_gnd_top"),
+    kani("c06_gnd_panicfree", ["C06", "C14"], "C06.gnd.panicfree", "Wall::u_value_gnd_wall / u_value_gnd_slab"),
+    # ---- C07 ------------------------------------------------------------------------------------------
+    kani("c07_wincons_u", ["C07"], "C07.u", "WinCons::u_value", timeout=300, bounded="ConsDb with 1 glass + 1 frame; all scalars and both links symbolic"),
+    kani("c07_wincons_g", ["C07"], "C07.g", "WinCons::g_glwi / g_glshwi", timeout=300, bounded="ConsDb with 1 glass + 1 frame; all scalars and the glass link symbolic"),
+    # ---- C09 ------------------------------------------------------------------------------------------
+    kani("c09_n50_no_walls", ["C09"], "C09.corner", "N50Data::from(&EnergyProps)", bounded="element maps empty; every global scalar symbolic"),
+    # ---- C13 ------------------------------------------------------------------------------------------
+    kani("c13_aabb_join", ["C13"], "C13.aabb.join", "AABB::join / AABB::default"),
+    kani("c13_aabb_mono", ["C13"], "C13.aabb.mono", "AABB::intersects / AABB::join", tier="thorough", timeout=900),
+    kani("c13_build_empty", ["C13", "C14", "C12"], "C13.build.empty", "BVH::build / BVH::intersects", bounded="0 obstacles, leaf size in {1,2,30}"),
+    kani("c13_build_single", ["C13", "C12"], "C13.build.equiv", "BVH::build / BVH::intersects", bounded="1 obstacle with symbolic box and hit flag, leaf size in {1,2,30}", timeout=300),
+    # ---- C17 / C03 (convert) -------------------------------------------------------------------------
+    kani("c17_day_of_year", ["C17"], "C17.doy", "convert::from_ctehexml::day_of_year"),
+    kani("c03_azimuth_convention", ["C03"], "C03.azimuth", "convert::orientation_bdl_to_52016"),
+    kani("c03_azimuth_shift", ["C03"], "C03.azimuth.shift", "convert::orientation_bdl_to_52016"),
+    kani("c03_mirror_y", ["C03"], "C03.mirror", "hulc::bdl::Polygon::mirror_y", pkg="hulc", bounded="1..5 vertices, symbolic coordinates"),
+    # ---- C20 (climate crate) -------------------------------------------------------------------------
+    kani("c20_nday_from_md", ["C20"], "C20.nday", "climate::nday_from_md", pkg="climate"),
+    kani("c20_hourangle_range", ["C20"], "C20.hourangle", "climate::solar::hourangle_from_tsol", pkg="climate"),
+    kani("c20_sol_surf_wrap", ["C20"], "C20.wrap", "climate::solar::azimuth_sol_surf / tilt_sol_surf", pkg="climate"),
+    kani("c20_idir_nonneg", ["C20"], "C20.idir.nonneg", "climate::solar::I_dir", pkg="climate"),
+
+    # ======================= bounded stand-ins (native exhaustive small scope) ==========================
+    native("n_c08_kdata_walls", ["C08"], "C08.kdata.walls", "KData::from(&EnergyProps)", EN + "n_c08_kdata_walls"),
+    native("n_c08_kdata_windows", ["C08"], "C08.kdata.windows", "KData::from(&EnergyProps)", EN + "n_c08_kdata_windows"),
+    native("n_c08_kdata_bridges", ["C08"], "C08.kdata.bridges", "KData::from(&EnergyProps)", EN + "n_c08_kdata_bridges"),
 ]
 
 PROPERTIES = {
-    "C11": {
-        "level": "proof",
-        "undecided_clauses": [],
-    },
+    "C11": {"level": "proof", "undecided_clauses": []},
+    "C06": {"level": "proof"},
+    "C07": {"level": "proof"},
+    "C09": {"level": "proof"},
+    "C13": {"level": "proof"},
+    "C17": {"level": "proof"},
+    "C03": {"level": "proof"},
+    "C20": {"level": "proof"},
+    "C12": {"level": "proof"},
+    "C14": {"level": "proof"},
+    "C08": {"level": "proof"},
 }
